@@ -26,12 +26,68 @@ STATUS_NUMBERS = {
 }
 
 
+def lookup_language(facts, f_try, adt, raw, table):
+    """The parser written as a search of a table of all values for the one whose canonical spelling equals the
+    input:  ALL.iter().copied().find(|v| v.raw() == bytes).ok_or(err).  Its language is raw() over the table."""
+    leaves = [l for l in PathEnum(f_try, facts).run() if l.kind == "return"]
+    if len(leaves) != 1:
+        return None
+    r = look(leaves[0].ret())
+    if not (is_call(r, "ok_or", "ok_or_else") and r[2]):
+        return None
+    fd = look(r[2][0])
+    while fd[0] == "mut":
+        fd = look(fd[1])
+    if not (is_call(fd, "find") and len(fd[2]) == 2):
+        return None
+    it = look(fd[2][0])
+    while it[0] == "mut" or is_call(it, "copied", "cloned", "into_iter"):
+        it = look(it[1]) if it[0] == "mut" else look(it[2][0])
+    if not is_call(it, "iter"):
+        return None
+    arr = look(it[2][0])
+    discr = facts.variant_discr(adt)
+    if arr[0] == "const" and isinstance(arr[1], bytes):
+        variants = [discr.get(b) for b in arr[1]]
+    elif arr[0] == "array":
+        variants = [x[2] if x[0] == "agg" else None for x in arr[1]]
+    else:
+        return None
+    if None in variants:
+        return None
+    clo = look(fd[2][1])
+    if not (clo[0] == "closure" and clo[1] in facts.fns and len(clo[2]) == 1 and look(clo[2][0]) == ("arg", 1)):
+        return None
+    good = True
+    for l2 in PathEnum(facts.fns[clo[1]], facts).run():
+        rr = look(l2.ret())
+        ok = False
+        if rr[0] == "call" and rr[1].endswith("PartialEq::eq") and len(rr[2]) == 2:
+            for a, b in ((rr[2][0], rr[2][1]), (rr[2][1], rr[2][0])):
+                a, b = look(a), look(b)
+                item_ok = is_call(a, raw) and look(a[2][0]) in (("arg", 2), ("deref", ("arg", 2)))
+                cap_ok = b[0] == "field" and look(b[1]) == ("arg", 1)
+                ok = ok or (item_ok and cap_ok)
+        good = good and ok
+    if not good:
+        return None
+    accept = {}
+    for v in variants:
+        c = table[v]
+        b = c if isinstance(c, bytes) else str(c).encode()
+        accept.setdefault(b, v)      # find() returns the first match
+    missing = [v for v in discr.values() if v not in variants]
+    inexact = ["the lookup table leaves out %s" % missing] if missing else []
+    return accept, inexact
+
+
 def token_roundtrip(ctx, rule, adt, try_from, raw):
     facts = ctx.facts
     f_try, f_raw = facts.fn(try_from), facts.fn(raw)
     ctx.touched(f_try, f_raw)
     table = enum_const_table(facts, f_raw, adt)
-    accept, inexact = byte_matcher_language(facts, f_try)
+    lk = lookup_language(facts, f_try, adt, raw, table)
+    accept, inexact = lk if lk is not None else byte_matcher_language(facts, f_try)
     for msg in inexact:
         ctx.fail(rule, "%s|inexact" % try_from, msg, f_try.loc(0))
     image = {}
@@ -79,7 +135,7 @@ def media_type(ctx):
     ctx.touched(f_try, f_str)
     table = enum_const_table(facts, f_str, "common::headers::MediaType")
     ctx.ob("R16.1", "MediaType|canonical-spellings", table == {"PlainText": "text/plain", "ApplicationJson": "application/json"}, "MediaType::as_str table %r" % table, f_str.loc(0))
-    acc, subjects, other_ok = string_matcher(facts, f_try)
+    acc, subjects, other_ok = string_matcher(facts, f_try, folds={"common::headers::MediaType::as_str": table})
     ctx.ob("R16.1", "MediaType|only-by-comparison", not other_ok, "every Ok return is selected by an == comparison with a constant (%d other Ok paths)" % len(other_ok), f_try.loc(0))
     ctx.ob("R16.1", "MediaType|one-subject", len({norm(s) for s in subjects}) == 1, "all comparisons test the same derived string (%d subjects)" % len(subjects), f_try.loc(0))
     image = {v: k for k, v in table.items()}
@@ -122,7 +178,7 @@ def abs_path(ctx):
     facts = ctx.facts
     fn = facts.fn("request::Uri::get_abs_path")
     ctx.touched(fn)
-    leaves = PathEnum(fn, facts).run()
+    leaves = PathEnum(fn, facts, lower=True).run()
     rets = [lf for lf in leaves if lf.kind == "return"]
     ctx.ob("R16.3", "loop-free", not [lf for lf in leaves if lf.kind == "loop"], "get_abs_path is loop-free (paths enumerated: %d)" % len(leaves), fn.loc(0))
 
@@ -164,26 +220,64 @@ def abs_path(ctx):
             base, rng = v[2][0], range_from(v[2][1])
             ok = False
             why = "returns a slice"
-            if rng is not None and is_call(look(base), "index"):
-                b2 = look(base)
-                inner, rng2 = b2[2][0], range_from(b2[2][1])
-                # inner slice: uri[len(P)..] under starts_with(uri, P), P == "http://"
-                plen = None
-                r2 = look(rng2) if rng2 is not None else None
-                if r2 is not None and is_call(r2, "len"):
-                    plen = const_of(r2[2][0])
-                elif r2 is not None and r2[0] == "const":
-                    plen = r2[1]
-                pref_ok = whole(inner) and cond_holds(lf.conds, lambda t: is_call(t, "starts_with") and whole(t[2][0]) and const_of(t[2][1]) == "http://") and (plen == "http://" or plen == 7)
-                # start of the returned slice: Some payload of position(bytes(inner-slice), |b| b == '/')
+
+            def has_scheme():
+                return cond_holds(lf.conds, lambda t: is_call(t, "starts_with") and whole(t[2][0]) and const_of(t[2][1]) == "http://")
+
+            def after_scheme(b):
+                """b is the URI without its `http://` prefix: uri[7..] / uri[len("http://")..] under starts_with, or strip_prefix's payload."""
+                b = look(b)
+                if is_call(b, "index") and whole(b[2][0]):
+                    r2 = range_from(look(b[2][1]))
+                    r2 = look(r2) if r2 is not None else None
+                    plen = None
+                    if r2 is not None and is_call(r2, "len"):
+                        plen = const_of(r2[2][0])
+                    elif r2 is not None and r2[0] == "const":
+                        plen = r2[1]
+                    return has_scheme() and (plen == "http://" or plen == 7)
+                src = payload_of(b)
+                return src is not None and is_call(src, "strip_prefix") and src[1].startswith("core::str::") and whole(src[2][0]) and const_of(src[2][1]) == "http://"
+
+            def first_slash(st, hay):
+                """st is where the first '/' of hay was found: position over its bytes with an == '/' test, or str::find(hay, '/')."""
+                src = payload_of(st)
+                if src is None:
+                    return False
+                if is_call(src, "position"):
+                    it = look(src[2][0])
+                    while it[0] == "mut":
+                        it = look(it[1])
+                    return is_call(it, "bytes", "iter", "into_iter") and it[2] and norm(look(it[2][0])) == norm(look(hay)) and slash_closure(look(src[2][1]))
+                if src[0] == "call" and src[1].startswith("core::str::<impl str>::") and last_seg(src[1]) == "find" and norm(look(src[2][0])) == norm(look(hay)):
+                    return const_of(src[2][1]) in (47, "/")
+                return False
+
+            if rng is not None:
                 st = look(rng)
-                pos_ok = False
-                if payload_of(st) is not None and is_call(payload_of(st), "position"):
-                    pos = payload_of(st)
-                    it = look(pos[2][0])
-                    pos_ok = is_call(it, "bytes") and norm(look(it[2][0])) == norm(b2) and slash_closure(pos[2][1])
-                ok = pref_ok and pos_ok
-                why = "returns uri[7..][p..] with starts_with(uri,'http://') (%s) and p = position of the first '/' byte (%s)" % (pref_ok, pos_ok)
+                if whole(base):
+                    # uri[start..]: start = 7 + (first '/' in the bytes after the scheme), or 0 when the URI starts with '/'
+                    from .util import as_sum
+                    sm = as_sum(st)
+                    if const_of(st) == 0:
+                        ok = cond_holds(lf.conds, lambda t: is_call(t, "starts_with") and whole(t[2][0]) and const_of(t[2][1]) == 47)
+                        why = "returns uri[0..] under starts_with('/') (%s)" % ok
+                    elif sm is not None:
+                        for a_, p_ in (sm, (sm[1], sm[0])):
+                            if const_of(a_) == 7:
+                                src = payload_of(p_)
+                                rest_ok = False
+                                if src is not None and is_call(src, "position"):
+                                    it = look(src[2][0])
+                                    while it[0] == "mut":
+                                        it = look(it[1])
+                                    if is_call(it, "bytes", "iter", "into_iter") and it[2]:
+                                        rest_ok = after_scheme(it[2][0]) and slash_closure(look(src[2][1]))
+                                ok = ok or rest_ok
+                        why = "returns uri[7 + p..] with p the position of the first '/' after the scheme (%s)" % ok
+                elif after_scheme(base):
+                    ok = first_slash(st, base)
+                    why = "returns rest[p..] with rest the URI after 'http://' and p the position of its first '/' (%s)" % ok
             ctx.ob("R16.3", "value|after-authority", ok, why, fn.loc(lf.bb))
             continue
         ctx.fail("R16.3", "value|unrecognised|%s" % v[0], "a return value of get_abs_path is neither '' nor a recognised suffix of the URI: %s" % term_s(r)[:200], fn.loc(lf.bb))
